@@ -433,6 +433,33 @@ func runC05(r *vf.Run) {
 				}
 			}
 		}
+		// (round 7) a second writer is pointed at the finished output by mistake: its Flush fails, and the index that is
+		// there keeps opening and answering as before (reopen sequences include the ones around a failed write)
+		if r.Want(id+"/second-writer-on-the-output") && len(ds.Rows) > 0 && len(ds.Rows) <= 20000 {
+			p := paths[ix.Writers[len(ds.Rows)%3]]
+			w2 := updog.NewIndexWriter(p)
+			for i := 0; i < 1+len(ds.Rows)%1200; i++ {
+				_, _ = w2.AddRow(map[string]string{"intruder": fmt.Sprint(i)})
+			}
+			ferr := w2.Flush()
+			r.Eval(1)
+			r.Count("second_writers_flushed_onto_a_finished_output", 1)
+			if ferr == nil {
+				r.Violation(id+"/second-writer-on-the-output", "probe", map[string]any{"difference": "a second writer's Flush onto the finished output returned no error"})
+			} else if idx, err := ix.Open(p, ix.OpenModes[len(ds.Rows)%2], nil); err != nil {
+				r.Violation(id+"/second-writer-on-the-output", "reopen", map[string]any{"error": err.Error(), "flush_error_of_the_second_writer": ferr.Error(),
+					"explanation": "the index was flushed, opened and closed; then another writer's Flush onto the same path failed; now the index does not open any more"})
+			} else {
+				d := oracle.CompareSchema(idx.GetSchema(), ds.Rows)
+				if d == "" {
+					_, d = runProbes(idx, probeSet(rng, ds, 60, 4))
+				}
+				idx.Close()
+				if d != "" {
+					r.Violation(id+"/second-writer-on-the-output", "probe", map[string]any{"difference": d, "explanation": "after another writer's failed Flush onto the same path"})
+				}
+			}
+		}
 		// one in-memory writer written twice: first after a prefix of the rows, then again after the rest. Both outputs
 		// must be complete for what had been added at that time (writing must not consume the writer's contents).
 		if len(ds.Rows) >= 2 && r.Want(id+"/written-twice") {
